@@ -11,7 +11,7 @@ from hypothesis import strategies as st
 from .. import gen, norm, walk
 from ..common import enc, lib
 from ..core import Violation, require
-from ..spec import build, kinds
+from ..spec import build, kinds, renamed
 from .c03 import _qbearing, count_before_shape, make_data
 
 ID = "C06"
@@ -327,6 +327,7 @@ def strategy(tier):
                 "c": draw(gen.recipes(spec, max_rows=6, reload_ok=False, focus=focus)),
                 "op": draw(st.sampled_from(("a+b", "a+b", "b+a", "a*f", "f*a", "copy", "zero", "toImmutable", "a+=b"))),
                 "f": draw(st.sampled_from((2.0, 0.5, 1.0, 1))),
+                "b_naming": draw(st.sampled_from(("same", "same", "named", "anonymous"))),
                 "steps": draw(st.lists(st.tuples(st.sampled_from("abr"), st.sampled_from(("fill", "iadd")), st.integers(0, 5)), min_size=1, max_size=5)),
             }
         case = {"mode": mode, "rows1": draw(simple_rows()), "rows2": draw(simple_rows()), "numpy": draw(st.booleans())}
@@ -525,7 +526,12 @@ def run_derive(case):
     from .. import states  # noqa: PLC0415
 
     spec, op = case["spec"], case["op"]
-    a, b = states.realize(spec, case["a"]), states.realize(spec, case["b"])
+    spec_b = spec
+    if case.get("b_naming") == "named":
+        spec_b = renamed(spec, True)   # b's quantities carry names where a's are anonymous ...
+    elif case.get("b_naming") == "anonymous":
+        spec_b = renamed(spec, False)  # ... or the other way round
+    a, b = states.realize(spec, case["a"]), states.realize(spec_b, case["b"])
     objs = {"a": a, "b": b}
     mutable = {"a": not case["a"].get("reload"), "b": not case["b"].get("reload")}
     before = {k: snapshot(v) for k, v in objs.items()}
